@@ -111,20 +111,87 @@ func buildEngine(engine string) string {
 	}
 	bin := filepath.Join(buildDir(), "bin", engine+".test")
 	os.MkdirAll(filepath.Dir(bin), 0755)
-	args := []string{"test", "-c", "-tags", "verif", "-overlay", ov, "-o", bin, "./engines/" + engine}
-	if repoDir() != "/repo" {
-		args = append([]string{"test", "-modfile", altModfile(simDir)}, args[1:]...)
+	build := func(ov string) ([]byte, error) {
+		args := []string{"test", "-c", "-tags", "verif", "-overlay", ov, "-o", bin, "./engines/" + engine}
+		if repoDir() != "/repo" {
+			args = append([]string{"test", "-modfile", altModfile(simDir)}, args[1:]...)
+		}
+		cmd := exec.Command(goBin, args...)
+		cmd.Dir = simDir
+		cmd.Env = goEnv()
+		return cmd.CombinedOutput()
 	}
-	cmd := exec.Command(goBin, args...)
-	cmd.Dir = simDir
-	cmd.Env = goEnv()
 	start := time.Now()
-	out, err := cmd.CombinedOutput()
+	note := ""
+	if engine == "pipesim" {
+		// Statement-level scheduling points: the pipeline packages of the working tree are
+		// rewritten into an overlay (cmd/yieldgen). If that build fails for whatever the
+		// tree contains, the engine is built without them and interleaves at stage
+		// boundaries only.
+		if sov, n, err := stmtOverlay(ov); err != nil {
+			fmt.Printf("WARNING statement-level scheduling points not available: %v\n", err)
+		} else if out, err := build(sov); err != nil {
+			fmt.Printf("WARNING build with statement-level scheduling points failed (%v); building without them\n%s\n", err, firstLines(string(out), 12))
+		} else {
+			fmt.Printf("built %s in %.1fs (from %s working tree, -tags verif, runtime/syscall overlay, %s)\n", engine, time.Since(start).Seconds(), repoDir(), n)
+			return bin
+		}
+		note = ", WITHOUT statement-level scheduling points"
+	}
+	out, err := build(ov)
 	if err != nil {
 		fatal2("build of engine %s failed: %v\n%s", engine, err, out)
 	}
-	fmt.Printf("built %s in %.1fs (from %s working tree, -tags verif, runtime/syscall overlay)\n", engine, time.Since(start).Seconds(), repoDir())
+	fmt.Printf("built %s in %.1fs (from %s working tree, -tags verif, runtime/syscall overlay%s)\n", engine, time.Since(start).Seconds(), repoDir(), note)
 	return bin
+}
+
+func firstLines(s string, n int) string {
+	l := strings.Split(s, "\n")
+	if len(l) > n {
+		l = l[:n]
+	}
+	return strings.Join(l, "\n")
+}
+
+// stmtOverlay runs cmd/yieldgen on the repository's working tree and merges its source
+// overlay with the standard-library overlay.
+func stmtOverlay(stdOverlay string) (string, string, error) {
+	simDir := filepath.Join(verifDir, "sim")
+	gen := filepath.Join(buildDir(), "bin", "yieldgen")
+	cmd := exec.Command(goBin, "build", "-o", gen, "./cmd/yieldgen")
+	cmd.Dir = simDir
+	cmd.Env = goEnv()
+	if out, err := cmd.CombinedOutput(); err != nil {
+		return "", "", fmt.Errorf("yieldgen build: %v: %s", err, out)
+	}
+	dir := filepath.Join(buildDir(), "yield")
+	os.RemoveAll(dir)
+	out, err := exec.Command(gen, "-repo", repoDir(), "-out", dir).CombinedOutput()
+	if err != nil {
+		return "", "", fmt.Errorf("yieldgen: %v: %s", err, out)
+	}
+	type ovT struct{ Replace map[string]string }
+	var a, b ovT
+	for f, v := range map[string]*ovT{stdOverlay: &a, filepath.Join(dir, "src-overlay.json"): &b} {
+		raw, err := os.ReadFile(f)
+		if err != nil {
+			return "", "", err
+		}
+		if err := json.Unmarshal(raw, v); err != nil {
+			return "", "", err
+		}
+	}
+	for k, v := range b.Replace {
+		a.Replace[k] = v
+	}
+	raw, _ := json.Marshal(a)
+	merged := filepath.Join(dir, "merged.json")
+	if err := os.WriteFile(merged, raw, 0644); err != nil {
+		return "", "", err
+	}
+	lines := strings.Split(strings.TrimSpace(string(out)), "\n")
+	return merged, strings.TrimPrefix(lines[len(lines)-1], "yieldgen: "), nil
 }
 
 // buildD2 builds the real d2 command from the repository's working tree (no verif tag, no
